@@ -60,4 +60,17 @@ func H20_wait_broadcast() {
 	default:
 		vAssert(second == "Lock#3;CondBroadcast#4;Unlock#3;", "C20.one-condition-variable-and-locker-per-code")
 	}
+	// another agent in the same process: a request it receives wakes its own
+	// waiters, not this agent's ("on any connection to the same agent")
+	before := len(vSyncLog())
+	s2 := mwNewServer(&mwUpstream{failAt: -1}, false)
+	crashed = vCatch(func() { rerr = s2.Broadcast(msg) })
+	vAssert(!crashed && rerr == nil, "C20.no-crash-for-any-code")
+	third := vSyncLog()[before:]
+	// fresh objects: numbered after every object seen so far (2 or 4)
+	if other < 40 && other != msg {
+		vAssert(third == "Lock#5;CondBroadcast#6;Unlock#5;", "C20.condition-variables-are-per-agent")
+	} else {
+		vAssert(third == "Lock#3;CondBroadcast#4;Unlock#3;", "C20.condition-variables-are-per-agent")
+	}
 }
